@@ -27,6 +27,7 @@ Case(n, lo, hi, st) == [n |-> n, lo |-> lo, hi |-> hi, st |-> st]
 LenKey(n, bp, bi, dop) == [P("LENGTH-KEY", n, bp, bi) EXCEPT !.dop = dop]
 Row(n, key, st) == [n |-> n, key |-> key, st |-> st]
 TabKey(n, bp, tab) == [P("TABLE-KEY", n, bp, -1) EXCEPT !.dop = tab]
+TabKeyStatic(n, tab, row) == [P("TABLE-KEY", n, -1, -1) EXCEPT !.dop = tab, !.cv = Str(row)]     \* TABLE-ROW-REF
 TabStruct(n, bp, tab, keyname) == [P("TABLE-STRUCT", n, bp, -1) EXCEPT !.dop = tab, !.sys = keyname]
 
 SID == Const("sid", 0, -1, U8, IntV(34))
@@ -100,6 +101,8 @@ Shapes(i) == {
     \* a table: the key selects the row, the row's data object / structure describes the content; row3 has neither
     <<TabKey(Nm("k", i), -1, Tab1), TabStruct(Nm("t", i), -1, Tab1, Nm("k", i))>>,
     <<TabKey(Nm("k", i), -1, Tab2), TabStruct(Nm("t", i), -1, Tab2, Nm("k", i))>>,
+    \* the row is selected statically
+    <<TabKeyStatic(Nm("k", i), Tab1, "row2"), TabStruct(Nm("t", i), -1, Tab1, Nm("k", i))>>,
     \* a trouble code followed by its environment data: one parameter common to all codes, one or two per code
     <<Value(Nm("d", i), -1, -1, [k |-> "dtc", dct |-> U8, codes |-> <<1, 2, 3>>]),
       Value(Nm("e", i), -1, -1, [k |-> "envdesc", ref |-> Nm("d", i), hasall |-> TRUE,
